@@ -6,6 +6,7 @@ CLASS = 'C'
 CRATE = 'vibesql-types'
 MODULE = 'verif_kani'
 UNWIND = 4
+HARNESS_FILE = 'kani/types/verif_kani.rs'
 DOC = 'eq is an equivalence, cmp a total preorder agreeing with eq, equal values produce identical Hasher write streams'
 
 FUNCTIONS = [
